@@ -53,3 +53,10 @@ def _scpfit(lib, run, recv, args, kw):
 def _sctransform(lib, run, recv, args, kw):
     st = run.deref(recv).fields['state'].term
     return MatV(sc_apply(st, args[0].term))
+
+# StandardScaler.transform standardises every row independently (A5)
+sc_row = F('scaler_transform_row', Opaque, RSeq, RSeq)
+_ii = z3.Int('i')
+from .libcalls import mrow      # noqa
+axiom('scaler.apply.row', forall([_o, _X, _ii], mrow(sc_apply(_o, _X), _ii) == sc_row(_o, mrow(_X, _ii)),
+                                 [mrow(sc_apply(_o, _X), _ii)]), ['scaler_transform'], 'numpy')
